@@ -392,10 +392,46 @@ func c08Seed7(r *Report) {
 		f := cc.StaticCallee()
 		return f != nil && f.Name() == "Load" && f.Pkg != nil && f.Pkg.Pkg.Path() == "sync/atomic"
 	}}, -1)
-	for _, name := range []string{"XOR", "IBLT"} {
-		fn := p.Func(dag, "state", name)
-		r.Gate(Gate{ID: "C08.digest.root-only-at-or-beyond-the-head." + name, Fn: fn, Effect: CallEffect(Fn(dag, "treeStore", "getRoot")),
-			Check: CmpCheck("reqClock < highest clock is false", token.LSS, ParamV("reqClock"), load, false)})
+	// anchored on whichever production function of the package takes the root (XOR and IBLT today; a shared helper after a
+	// refactoring): there the requested clock is a parameter
+	anyParam := VPat{Desc: "the requested clock (a parameter)", M: func(v ssa.Value) bool {
+		v = StripConv(v)
+		if _, ok := v.(*ssa.Parameter); ok {
+			return true
+		}
+		if u, ok := v.(*ssa.UnOp); ok && u.Op == token.MUL {
+			if a, isA := u.X.(*ssa.Alloc); isA {
+				for _, prm := range a.Parent().Params {
+					if prm.Name() == a.Comment {
+						return true
+					}
+				}
+			}
+		}
+		return false
+	}}
+	seen := map[*ssa.Function]bool{}
+	for _, site := range p.CallSites(Fn(dag, "treeStore", "getRoot"), false) {
+		fn := site.Fn
+		if seen[fn] || p.FileClass(p.FuncPos(fn)) != "prod" {
+			continue
+		}
+		// only functions that answer for a REQUESTED clock (a uint32 parameter); Diagnostics reports the whole DAG
+		hasClock := false
+		for _, prm := range fn.Params {
+			if b, isB := prm.Type().Underlying().(*types.Basic); isB && b.Kind() == types.Uint32 {
+				hasClock = true
+			}
+		}
+		if !hasClock {
+			continue
+		}
+		seen[fn] = true
+		r.Gate(Gate{ID: "C08.digest.root-only-at-or-beyond-the-head." + fn.Name(), Fn: fn, Effect: CallEffect(Fn(dag, "treeStore", "getRoot")),
+			Check: CmpCheck("requested clock < highest clock is false", token.LSS, anyParam, load, false)})
+	}
+	if len(seen) == 0 {
+		r.Lost("C08.digest.root-only-at-or-beyond-the-head", "GATE", "no production call of treeStore.getRoot")
 	}
 }
 
